@@ -60,7 +60,11 @@ def map_coordinates(
     for indices_and_weights in itertools.product(*interpolation_data):
         indices, weights = zip(*indices_and_weights, strict=True)
         contribution = input[indices]
-        weighted_value = _multiply_all(weights) * contribution
+        weight = _multiply_all(weights)
+        # A corner with zero weight does not contribute, whatever its value: for an
+        # infinite entry the product 0 * inf would turn the result into NaN.
+        contribution = jnp.where((weight == 0) & jnp.isinf(contribution), 0, contribution)
+        weighted_value = weight * contribution
         interpolation_values.append(weighted_value)
 
     result = _sum_all(interpolation_values)
